@@ -358,6 +358,9 @@ func (tk *task) Logf(format string, args ...any) {
 }
 
 func (tk *task) Failf(class, witness, format string, args ...any) {
+	if tk.s.NoteKnown(class, witness, fmt.Sprintf(format, args...)) {
+		return
+	}
 	if tk.fail == nil {
 		tk.fail = &kernel.Violation{Class: class, Witness: witness, Msg: fmt.Sprintf(format, args...)}
 	}
@@ -441,7 +444,8 @@ func runC01(s *kernel.Sim, cfg string) {
 	if p.slow {
 		s.Probe("handler-takes-time")
 	}
-	sv := startServers(s, n, p, serverOpts{dot: true, doh: true, doq: true})
+	sv := startServers(s, n, p, serverOpts{dot: true, doh: true, doq: true, dnscrypt: true})
+	defer sv.shutdown()
 
 	nItems := t.Range(4, 24, "items")
 	items := make([]*item, nItems)
@@ -462,6 +466,7 @@ func runC01(s *kernel.Sim, cfg string) {
 	r.spawn("dot", func(tk *task) { clientStream(tk, n, "dot", addrDoT, items, clientTLS("dns.sim.test")) })
 	r.spawn("doh", func(tk *task) { clientDoH(tk, n, items) })
 	r.spawn("doq", func(tk *task) { clientDoQ(tk, n, items) })
+	r.spawn("dnscrypt", func(tk *task) { clientDNSCrypt(tk, n, sv, items) })
 	r.wait()
 	s.MarkNontrivial()
 	if s.Failed() != nil {
@@ -500,7 +505,6 @@ func runC01(s *kernel.Sim, cfg string) {
 		return
 	}
 
-	sv.shutdown()
 }
 
 func questionOf(it *item) string {
@@ -1124,5 +1128,159 @@ func clientDoQ(s *task, n *simnet.Net, items []*item) {
 
 	if conn != nil {
 		_ = conn.CloseWithError(0, "")
+	}
+}
+
+
+// ---- DNSCrypt ----
+
+// clientDNSCrypt sends every item encrypted, over UDP (messages that fit) or
+// TCP.  A message the server decodes but must drop is answered with a bare
+// SERVFAIL (as on DoQ); bytes that do not decode are not answered.
+func clientDNSCrypt(s *task, n *simnet.Net, sv *servers, items []*item) {
+	dc := newDCClient(sv.dcCert, uint64(s.rng.Uint64()))
+	srv := net.UDPAddrFromAddrPort(netip.MustParseAddrPort(addrDC))
+
+	// The certificate exchange a client starts with: a plain TXT query.
+	{
+		pc, err := n.DialPacket(n.ClientAddr(clientIP(5)))
+		if err != nil {
+			panic(err)
+		}
+		q := (&dns.Msg{}).SetQuestion(sv.dcProvider+".", dns.TypeTXT)
+		raw, _ := q.Pack()
+		_, _ = pc.WriteTo(raw, srv)
+		_ = pc.SetReadDeadline(time.Now().Add(3 * time.Second))
+		buf := make([]byte, 4096)
+		k, _, rerr := pc.ReadFrom(buf)
+		if rerr == nil {
+			m := &dns.Msg{}
+			if m.Unpack(buf[:k]) == nil && len(m.Answer) > 0 {
+				s.Probe("dnscrypt-certificate-fetched")
+			}
+		}
+		_ = pc.Close()
+	}
+
+	for _, it := range items {
+		s.pause()
+		overTCP := len(it.raw) > 400 || s.Chance(1, 3)
+		splitPrefix := false
+		sealed := dc.seal(it.raw)
+		var reply []byte
+		var end string
+		if overTCP {
+			c, err := n.Dial(addrDC, n.ClientAddr(clientIP(5)))
+			if err != nil {
+				s.Failf("C01/listener-down", "dnscrypt: cannot connect", "%v", err)
+
+				return
+			}
+			// The client decides where its segments end.
+			c.WholeWrites()
+			framed := withPrefix(sealed)
+			splitPrefix = s.Chance(1, 6)
+			if splitPrefix {
+				// The two octets of the length prefix arrive in two
+				// segments.
+				_, _ = c.Write(framed[:1])
+				time.Sleep(10 * time.Millisecond)
+				_, _ = c.Write(framed[1:])
+			} else {
+				_, _ = c.Write(framed)
+			}
+			frames, e := readFrames(c, 3*time.Second)
+			_ = c.Close()
+			end = e
+			if len(frames) > 1 {
+				s.Failf("C01/response-count", "dnscrypt-tcp: more than one response", "item id=%d: %d", it.id, len(frames))
+
+				return
+			}
+			if len(frames) == 1 {
+				reply = frames[0]
+			}
+		} else {
+			pc, err := n.DialPacket(n.ClientAddr(clientIP(5)))
+			if err != nil {
+				panic(err)
+			}
+			_, _ = pc.WriteTo(sealed, srv)
+			_ = pc.SetReadDeadline(time.Now().Add(3 * time.Second))
+			buf := make([]byte, 65535)
+			k, _, rerr := pc.ReadFrom(buf)
+			if rerr == nil {
+				reply = append([]byte(nil), buf[:k]...)
+			}
+			_ = pc.Close()
+			end = "udp"
+		}
+
+		tr := "dnscrypt-udp"
+		if overTCP {
+			tr = "dnscrypt-tcp"
+		}
+		e := expect(it)
+		lossy := !overTCP && (n.Faults.DropDen > 0)
+		// The DNSCrypt layer itself drops messages that are not a single
+		// question or are responses, before the server's own checks.
+		// It also rejects messages shorter than a header plus a minimal
+		// question (17 octets).
+		layerDrops := it.msg != nil && (len(it.msg.Question) != 1 || it.msg.Response || len(it.raw) < 17)
+		if reply == nil {
+			s.Logf("%s: item %s id=%d: no reply (%s)", tr, it.kind, it.id, end)
+			if it.msg != nil && e.outcome != "none" && !lossy && !layerDrops {
+				if splitPrefix {
+					s.Failf("C01/dnscrypt-tcp-split-prefix",
+						"dnscrypt-tcp: query whose two-octet length prefix arrives in two segments gets no response",
+						"item %s id=%d %s: no reply (%s)", it.kind, it.id, questionOf(it), end)
+					if s.Failed() {
+						return
+					}
+
+					continue
+				}
+				s.Failf("C01/response-count", tr+": query did not get exactly one response",
+					"item %s id=%d %s: no reply (%s)", it.kind, it.id, questionOf(it), end)
+
+				return
+			}
+
+			continue
+		}
+		plain, derr := dc.open(reply)
+		if derr != nil {
+			s.Failf("C01/undecodable-response", tr+": reply does not decrypt", "%v", derr)
+
+			return
+		}
+		resp := &dns.Msg{}
+		if uerr := resp.Unpack(plain); uerr != nil {
+			s.Failf("C01/undecodable-response", tr+": server sent bytes that do not decode", "%v: % x", uerr, plain)
+
+			return
+		}
+		if it.msg == nil {
+			s.Failf("C01/unexpected-response", tr+": response to undecodable bytes", "%s", resp.String())
+
+			return
+		}
+		if e.outcome == "none" {
+			okQ := len(resp.Question) == 0 || (len(it.msg.Question) > 0 && resp.Question[0] == it.msg.Question[0])
+			if resp.Rcode != dns.RcodeServerFailure || resp.Id != it.id || !okQ || len(resp.Answer)+len(resp.Ns) > 0 {
+				s.Failf("C01/unexpected-response", tr+": response to a message that must be dropped",
+					"item %s id=%d got %s", it.kind, it.id, resp.String())
+
+				return
+			}
+			s.Probe("dnscrypt-servfail-for-dropped")
+
+			continue
+		}
+		checkResponse(s, tr, it, resp, true)
+		if s.Failed() {
+			return
+		}
+		s.Probe(tr + "-answered")
 	}
 }
